@@ -98,8 +98,13 @@ def build_binary(pid, b, thash):
     if os.path.exists(exe):
         return exe
     os.makedirs(BUILD, exist_ok=True)
+    # prune stale builds of this binary (not the recent ones: a concurrent run may still be using them)
     for old in glob.glob(os.path.join(BUILD, prefix + "*")):
-        shutil.rmtree(old, ignore_errors=True)
+        try:
+            if time.time() - os.path.getmtime(old) > 3600:
+                shutil.rmtree(old, ignore_errors=True)
+        except OSError:
+            pass
     os.makedirs(bdir)
     jobs = []
     shimflags = ["-include", os.path.join(VERIF, shim)] if shim else []
